@@ -597,9 +597,10 @@ func (this *Writer) Close() error {
 				return err
 			}
 
-			// Write end block of size 0
-			this.obs.WriteBits(0, 5) // write length-3 (5 bits max)
-			this.obs.WriteBits(0, 3)
+			if err := this.writeEndBlock(); err != nil {
+				return err
+			}
+
 			atomic.StoreInt32(&this.finalized, 1)
 		}
 	}
@@ -623,6 +624,24 @@ func (this *Writer) Close() error {
 		this.buffers[i] = blockBuffer{Buf: make([]byte, 0)}
 	}
 
+	return nil
+}
+
+// Write end block of size 0. The bitstream panics when the sink fails.
+func (this *Writer) writeEndBlock() (err error) {
+	defer func() {
+		if r := recover(); r != nil {
+			switch v := r.(type) {
+			case error:
+				err = &IOError{msg: v.Error(), code: kanzi.ERR_WRITE_FILE}
+			default:
+				err = &IOError{msg: fmt.Sprint(v), code: kanzi.ERR_WRITE_FILE}
+			}
+		}
+	}()
+
+	this.obs.WriteBits(0, 5) // write length-3 (5 bits max)
+	this.obs.WriteBits(0, 3)
 	return nil
 }
 
